@@ -39,6 +39,10 @@ func runC11(c *eng.Ctx, tier string) {
 	// the whole live active set (C13's rule)
 	handleBoundToName(c, "R-C11-9")
 	includeOnly(c, "R-C11-9", func(sc *eng.Ctx) { runC13(sc, "quick") }, "R-C13-2")
+	// R-C11-11: "every secret the store knows yields ...": an entry a handle
+	// refers to stays in the set whatever a poll decided earlier (the apply
+	// phase re-checks the handle registry before it removes: C19's rule)
+	includeOnly(c, "R-C11-11", func(sc *eng.Ctx) { runC19(sc, "quick") }, "R-C19-1")
 	// the function the refresh round calls to apply: the callee of the round
 	// (the closure calling poll) that reaches an installing function
 	apply := afs[0]
@@ -649,6 +653,10 @@ func c11Refresh(c *eng.Ctx, refresh, poll, apply *ssa.Function) {
 				return false
 			}
 			rv := eng.RetVals(r)
+			// (handing the failed call's own error on is returning it)
+			if eng.Same(rv[len(rv)-1], ev) {
+				return false
+			}
 			return nonNilAt(rv[len(rv)-1], eng.FactsAt(r)) != eng.Yes
 		})
 		c.Check(hit == nil, "R-C11-2", cl, call.Pos(), "failure of "+eng.CallStr(&call.Call), "the refresh round returns a non-nil error", func() string {
@@ -677,11 +685,38 @@ func c11Refresh(c *eng.Ctx, refresh, poll, apply *ssa.Function) {
 		c.Undecided("R-C11-2", poll, poll.Pos(), "result of poll", "no error result")
 		return
 	}
+	isJoin := func(v ssa.Value) *ssa.Call {
+		if call, _ := eng.TupleCall(v); call != nil && (eng.CalleeIs(&call.Call, "errors", "Join") || eng.CalleeIs(&call.Call, "tailscale.com/util/multierr", "New")) {
+			return call
+		}
+		return nil
+	}
 	for _, r := range eng.Returns(poll) {
 		rv := eng.RetVals(r)
-		if call, _ := eng.TupleCall(rv[ei]); call != nil && (eng.CalleeIs(&call.Call, "errors", "Join") || eng.CalleeIs(&call.Call, "tailscale.com/util/multierr", "New")) {
-			joined = call.Call.Args[0]
-		} else if !eng.Same(rv[ei], ferr) {
+		okRet := false
+		if call := isJoin(rv[ei]); call != nil {
+			joined, okRet = call.Call.Args[0], true
+		}
+		// ... or the join wrapped with %w where it is non-nil, and nil where it is nil
+		pa := eng.Path{Blocks: []*ssa.BasicBlock{r.Block()}}
+		if w, _ := eng.TupleCall(rv[ei]); w != nil && eng.CalleeIs(&w.Call, "fmt", "Errorf") && len(w.Call.Args) == 2 && errorfHasW(w) {
+			elems, _ := pa.SliceElems(w.Call.Args[1])
+			for _, e := range elems {
+				if call := isJoin(pa.Resolve(e)); call != nil {
+					joined, okRet = call.Call.Args[0], true
+				}
+			}
+		}
+		if eng.IsNilConst(eng.Origin(rv[ei])) {
+			for _, cond := range eng.FactsAt(r) {
+				if v, isNil, isN := cond.NilCheck(); isN && isNil {
+					if call := isJoin(v); call != nil {
+						joined, okRet = call.Call.Args[0], true
+					}
+				}
+			}
+		}
+		if !okRet && !eng.Same(rv[ei], ferr) {
 			c.Bad("R-C11-2", poll, r.Pos(), eng.InstrStr(r), "poll returns the join of all fetch errors", "returns "+eng.ValStr(rv[ei]))
 		}
 	}
@@ -822,6 +857,50 @@ func c11Apply(c *eng.Ctx, apply *ssa.Function) {
 			}
 			return "the next iteration is reached without an install: " + p.PathStr(path)
 		}())
+	}
+	// R-C11-10: a poll whose cache flush failed is not a successful poll: the
+	// failure of the flush in the apply phase reaches apply's caller
+	{
+		nf := 0
+		eng.Instrs(apply, func(in ssa.Instruction) {
+			call, ok := in.(*ssa.Call)
+			if !ok {
+				return
+			}
+			cal := eng.Callee(&call.Call)
+			if cal == nil || !reachesCacheWrite(p, cal) {
+				return
+			}
+			nf++
+			site := "failure of " + eng.CallStr(&call.Call) + " in the apply phase"
+			want := "apply returns a non-nil error (the poll is reported as failed: memory and cache differ)"
+			ei, fei := errResultIndex(apply), errResultIndex(cal)
+			if ei < 0 || fei < 0 {
+				c.Bad("R-C11-10", apply, in.Pos(), site, want, "no error result to carry it")
+				return
+			}
+			ev := saveErr(call)
+			hit, path := eng.Search(apply, call, eng.AssumeErr(ev, false), nil, func(x ssa.Instruction) bool {
+				r, isR := x.(*ssa.Return)
+				if !isR {
+					return false
+				}
+				rv := eng.RetVals(r)
+				if eng.Same(rv[ei], ev) {
+					return false
+				}
+				return nonNilAt(rv[ei], eng.FactsAt(r)) != eng.Yes
+			})
+			c.Check(hit == nil, "R-C11-10", apply, in.Pos(), site, want, func() string {
+				if hit == nil {
+					return ""
+				}
+				return "a return that may answer nil is reachable after the failed flush: " + p.PathStr(path)
+			}())
+		})
+		if nf == 0 && root == apply {
+			c.Undecided("R-C11-10", apply, apply.Pos(), "cache flush of the apply phase", "no call reaching Cache.Write found directly in "+eng.FName(apply))
+		}
 	}
 	// single critical section: no unlock inside the loop
 	eng.InstrsDeep(root, func(_ *ssa.Function, in ssa.Instruction) {
@@ -1200,4 +1279,11 @@ func linBounds(v ssa.Value, env map[*ssa.Parameter]linIv, depth int) (linIv, boo
 		return linBounds(eng.RetVals(rets[0])[0], inner, depth+1)
 	}
 	return linIv{}, false
+}
+
+// errorfHasW reports whether the constant format of a fmt.Errorf call has a
+// %w verb.
+func errorfHasW(call *ssa.Call) bool {
+	format, isC := eng.ConstString(call.Call.Args[0])
+	return isC && strings.Contains(format, "%w")
 }
